@@ -1,59 +1,861 @@
 package main
 
-import "fmt"
+import (
+	"fmt"
+	"go/ast"
+	"go/constant"
+	"go/token"
+	"go/types"
+	"regexp"
+	"sort"
+	"strings"
+
+	"golang.org/x/tools/go/packages"
+)
 
 func init() { register("C01", checkC01) }
 
-func checkC01(c *Ctx) {
-	c.Explanation = "wip"
-	for _, name := range []string{"testify", "matryer"} {
-		errs := map[string]int{}
-		first := map[string]*TPath{}
-		n := walkTemplate(c, name, "body", func(p *TPath) {
-			switch {
-			case p.Err != nil:
-				k := "eval: " + p.Err.err.Error()
-				errs[k]++
-				if first[k] == nil {
-					first[k] = p
-				}
-			case p.ParseEr != nil:
-				k := "parse: " + p.ParseEr.Error()
-				errs[k]++
-				if first[k] == nil {
-					first[k] = p
-				}
-			default:
-				for _, m := range p.TypeErr {
-					k := "type: " + m
-					errs[k]++
-					if first[k] == nil {
-						first[k] = p
-					}
-				}
-				c.OK("R01.2", name, "", "")
-			}
-		})
-		fmt.Println(name, "paths", n)
-		i := 0
-		for k, v := range errs {
-			fmt.Println("  ", v, k, "\n      ", first[k].Env())
-			dumpPath(first[k], fmt.Sprintf("/tmp/mk/skel-%s-%d.go", name, i))
-			i++
-		}
-	}
-}
+var templateBuiltins = map[string]bool{"and": true, "or": true, "not": true, "len": true, "index": true, "slice": true, "eq": true, "ne": true, "lt": true, "le": true, "gt": true, "ge": true,
+	"print": true, "printf": true, "println": true, "call": true, "html": true, "js": true, "urlquery": true}
 
-func init() {
-	register("DUMP", func(c *Ctx) {
-		for _, name := range []string{"testify", "matryer"} {
-			i := 0
-			walkTemplate(c, name, "body", func(p *TPath) {
-				if len(p.Shape.Ifaces) == 2 && p.Shape.OutPkg && i < 2 {
-					dumpPath(p, fmt.Sprintf("/tmp/mk/dump-%s-%d.go", name, i))
-					i++
+var reUserName = regexp.MustCompile(`^[pr][a-z]\d+x\d+$`)
+
+func checkC01(c *Ctx) {
+	c.Explanation = `R01.2 every path of both built-in templates (engine T: all template-data flag combinations x interface shapes up to the tier bound, both placements, generic and non-generic, header flags in a separate sweep) evaluates without a template error, parses (go/parser) and type-checks (go/types) together with a synthetic environment built from the shape alone (source interface, placeholder types in a separate package, stub testify/mock and sync): undefined names, unused imports or variables, wrong arity, mismatched types and missing imports in any branch are reported with the template line;
+R01.3 no identifier fixed by the template can capture or be captured by a user-supplied parameter/result name: fixed identifiers declared in the same scope as the parameters (redeclaration), declared in an inner scope around a use of a parameter (capture), or referring to package-level/predeclared names inside the parameters' scope (shadowing) are reported, unless allocated through Scope.AllocateName;
+R01.8 every function the built-in templates call is a text/template builtin or a key of template_funcs.FuncMap;
+R01.1 the import-collecting type switch (MethodScope.populateImportsHelper) has a case for every go/types type constructor except Tuple and TypeParam, and each case feeds every component type of that constructor into the recursion (Map: Key and Elem, Signature: Params and Results, ...), named types add their package and recurse into type arguments, unsafe.Pointer adds package unsafe;
+R01.5 the in-package decision is exactly 'pkgname == source package name && output directory == source directory';
+R01.6 the formatter dispatch has one arm per declared Formatter constant (goimports, gofmt, noop), each calling the formatter of that name on the rendered bytes (noop returns them unchanged), and an error fall-through;
+R01.7 the destination import path comes from modfile.ModulePath of the nearest go.mod, with an error for an empty result.`
+	c.NotDecided = "type-correctness for all interfaces (type strings are opaque placeholders: types.TypeString semantics, alias/qualifier clashes with local declarations, goimports repair); shapes beyond the tier bound; user templates."
+	c.Assumptions = []string{"go/parser and go/types accept exactly valid Go", "engine T's accessor table (C14 checks it against the Go code)", "stub signatures of testify/mock and sync"}
+	c.Rule("R01.2", 1000, "")
+	c.Rule("R01.3", 50, "")
+	c.Rule("R01.8", 10, "")
+	c.Rule("R01.1", 25, "")
+	c.Rule("R01.5", 2, "")
+	c.Rule("R01.6", 6, "")
+	c.Rule("R01.7", 2, "")
+
+	used := map[string]bool{}
+	hazards := map[string]string{} // key -> detail (deduplicated over paths)
+	hazardPos := map[string]string{}
+	nFuncs := 0
+	for _, name := range []string{"testify", "matryer"} {
+		tname := name
+		for _, mode := range []string{"body", "header"} {
+			walkTemplate(c, name, mode, func(p *TPath) {
+				env := " [" + p.Env() + "]"
+				for f := range p.E.funcsUsed {
+					used[f] = true
+				}
+				switch {
+				case p.Err != nil:
+					c.Fail("R01.2", tname+"|eval|"+normMsg(p.Err.err.Error()), p.E.nodePos(p.Err.node), "template execution fails on this path: "+p.Err.err.Error()+env)
+					return
+				case p.ParseEr != nil:
+					msg := p.ParseEr.Error()
+					if i := strings.Index(msg, ": "); i >= 0 {
+						msg = msg[i+2:]
+					}
+					c.Fail("R01.2", tname+"|parse|"+normMsg(firstLines(msg, 1)), "internal/mock_"+tname+".templ", "rendered file is not syntactically valid Go: "+firstLines(p.ParseEr.Error(), 2)+env)
+					return
+				}
+				if len(p.TypeErr) == 0 {
+					c.OK("R01.2", tname, "", "evaluates, parses, type-checks"+env)
+				}
+				for i, m := range p.TypeErr {
+					c.Fail("R01.2", tname+"|type|"+m, p.TmplPos(p.rawErrs[i].Pos), "rendered file does not type-check: "+p.rawErrs[i].Msg+env)
+				}
+				if mode == "body" {
+					nFuncs += captureHazards(p, hazards, hazardPos)
 				}
 			})
 		}
+	}
+	var hk []string
+	for k := range hazards {
+		hk = append(hk, k)
+	}
+	sort.Strings(hk)
+	for _, k := range hk {
+		c.Fail("R01.3", k, hazardPos[k], hazards[k])
+	}
+	for i := 0; i < nFuncs && i < 100000; i++ {
+		c.OK("R01.3", "scope-analysis", "", "function with user-named parameters analysed")
+	}
+
+	r := loadRepo(c, packages.LoadSyntax, "", "./internal", "./template", "./template_funcs")
+	// R01.8
+	fm := funcMapEntries(r.Pkg("template_funcs"))
+	var un []string
+	for f := range used {
+		un = append(un, f)
+	}
+	sort.Strings(un)
+	for _, f := range un {
+		switch {
+		case templateBuiltins[f]:
+			c.OK("R01.8", "builtin|"+f, "", "text/template builtin")
+		case fm[f] != nil:
+			c.OK("R01.8", "funcmap|"+f, r.Pos(fm[f].Pos()), "FuncMap key")
+		default:
+			c.Fail("R01.8", "undefined-function|"+f, "internal/", fmt.Sprintf("a built-in template calls %q, which is neither a text/template builtin nor a FuncMap key: template parsing fails for every run", f))
+		}
+	}
+	goR011(c, r)
+	goR015(c, r)
+	goR016(c, r)
+	goR017(c, r)
+}
+
+// captureHazards implements R01.3 on one skeleton; returns the number of functions analysed.
+func captureHazards(p *TPath, out map[string]string, pos map[string]string) int {
+	if p.Info == nil {
+		return 0
+	}
+	n := 0
+	isUser := func(id *ast.Ident) bool {
+		if !reUserName.MatchString(id.Name) {
+			return false
+		}
+		return len(p.holesIn(id)) > 0
+	}
+	isAllocated := func(id *ast.Ident) bool {
+		hs := p.holesIn(id)
+		if len(hs) == 0 {
+			return false
+		}
+		for _, h := range hs {
+			if !strings.HasPrefix(h.Expr, "scope.AllocateName") {
+				return false
+			}
+		}
+		return true
+	}
+	fromHoleOnly := func(id *ast.Ident) bool { return len(p.holesIn(id)) > 0 && p.fixedText(id) == strings.Repeat("{}", 1) }
+	for _, d := range p.File.Decls {
+		fd, ok := d.(*ast.FuncDecl)
+		if !ok || fd.Body == nil {
+			continue
+		}
+		// does the function declare user-named parameters?
+		var userParams []*ast.Ident
+		for _, f := range fd.Type.Params.List {
+			for _, nm := range f.Names {
+				if isUser(nm) {
+					userParams = append(userParams, nm)
+				}
+			}
+		}
+		if len(userParams) == 0 {
+			continue
+		}
+		n++
+		fscope := p.Info.Scopes[fd.Type]
+		role := p.fixedText(fd.Name)
+		if fd.Recv != nil && len(fd.Recv.List) == 1 {
+			role = regexp.MustCompile(`[Mm]ock[A-Z]`).ReplaceAllString(reMeth.ReplaceAllString(recvTypeName(fd.Recv.List[0].Type), "M"), "Mock") + "." + role
+		}
+		// positions where user parameters are used in the body
+		var uses []token.Pos
+		ast.Inspect(fd.Body, func(x ast.Node) bool {
+			if id, ok := x.(*ast.Ident); ok && isUser(id) {
+				if o := p.Info.Uses[id]; o != nil && o.Parent() == fscope {
+					uses = append(uses, id.Pos())
+				}
+			}
+			return true
+		})
+		report := func(kind string, id *ast.Ident, what string) {
+			shown := id.Name
+			if ft := p.fixedText(id); strings.Contains(ft, "{}") {
+				shown = strings.ReplaceAll(ft, "{}", "<k>")
+			} else if m := regexp.MustCompile(`^([A-Za-z_]+)\d+$`).FindStringSubmatch(id.Name); m != nil {
+				shown = m[1] + "<k>" // names numbered by a range index (r0, r1, ...)
+			}
+			k := fmt.Sprintf("%s|%s|%s|%s", p.Tmpl, role, kind, shown)
+			if _, ok := out[k]; !ok {
+				out[k] = fmt.Sprintf("a parameter or result named %q %s (function %s of the %s template)", shown, what, normMsg(fd.Name.Name), p.Tmpl)
+				pos[k] = p.TmplPos(id.Pos())
+			}
+		}
+		// selector .Sel and composite-literal keys are not lexical references
+		skip := map[*ast.Ident]bool{}
+		ast.Inspect(fd, func(x ast.Node) bool {
+			switch y := x.(type) {
+			case *ast.SelectorExpr:
+				skip[y.Sel] = true
+			case *ast.KeyValueExpr:
+				if k, ok := y.Key.(*ast.Ident); ok {
+					skip[k] = true
+				}
+			case *ast.Field:
+				// field names inside struct/interface/func *types* are not in the function scope
+			}
+			return true
+		})
+		check := func(id *ast.Ident) {
+			if skip[id] || id.Name == "_" || isUser(id) || isAllocated(id) {
+				return
+			}
+			if len(p.holesIn(id)) > 0 && p.fixedText(id) == "{}" {
+				return // entirely from a data hole (type strings, method names): not template-fixed
+			}
+			_ = fromHoleOnly
+			if o := p.Info.Defs[id]; o != nil {
+				if _, isVar := o.(*types.Var); !isVar {
+					return
+				}
+				if o.(*types.Var).IsField() {
+					return
+				}
+				sc := o.Parent()
+				switch {
+				case sc == fscope:
+					report("redeclare", id, "is declared twice in the function's scope: the file does not compile")
+				case sc != nil && fscope != nil && fscope.Contains(id.Pos()):
+					for _, u := range uses {
+						if sc.Contains(u) && u > id.Pos() {
+							report("capture", id, "is captured by the template's own local of that name, declared around a use of the parameter: the mock compiles against the wrong variable or not at all")
+							break
+						}
+					}
+				}
+				return
+			}
+			if o := p.Info.Uses[id]; o != nil {
+				sc := o.Parent()
+				if sc == types.Universe || sc == p.Pkg.Scope() || isFileScope(p, sc) {
+					if _, isType := o.(*types.TypeName); isType && len(p.holesIn(id)) > 0 {
+						return
+					}
+					report("shadow", id, fmt.Sprintf("shadows the %s %q that the generated body refers to", objKind(o), id.Name))
+				}
+			}
+		}
+		if fd.Recv != nil {
+			for _, f := range fd.Recv.List {
+				for _, nm := range f.Names {
+					check(nm)
+				}
+			}
+		}
+		ast.Inspect(fd.Body, func(x ast.Node) bool {
+			if id, ok := x.(*ast.Ident); ok {
+				check(id)
+			}
+			return true
+		})
+	}
+	return n
+}
+
+func isFileScope(p *TPath, sc *types.Scope) bool {
+	return sc != nil && sc.Parent() == p.Pkg.Scope() && p.Info.Scopes[p.File] == sc
+}
+
+func objKind(o types.Object) string {
+	switch o.(type) {
+	case *types.PkgName:
+		return "imported package"
+	case *types.Builtin:
+		return "predeclared function"
+	case *types.Nil:
+		return "predeclared identifier"
+	case *types.TypeName:
+		return "type"
+	case *types.Const:
+		return "constant"
+	case *types.Func:
+		return "function"
+	}
+	return "package-level name"
+}
+
+// ---------------- R01.1: exhaustive import walk ----------------
+
+func goR011(c *Ctx, r *Repo) {
+	tp := r.Pkg("template")
+	info := tp.TypesInfo
+	fd := FuncDecl(tp, "MethodScope.populateImportsHelper")
+	if fd == nil {
+		c.Fail("R01.1", "populateImportsHelper|missing", "template/method_scope.go", "MethodScope.populateImportsHelper not found")
+		return
+	}
+	c.Func(funcKey(tp, fd))
+	self := info.Defs[fd.Name]
+	// the universe of type constructors: named types of go/types whose pointer implements types.Type
+	gt := r.Pkgs["go/types"]
+	if gt == nil || gt.Types == nil {
+		c.Fail("R01.1", "go/types|not-loaded", "", "go/types package not loaded")
+		return
+	}
+	typeIface := gt.Types.Scope().Lookup("Type").Type().Underlying().(*types.Interface)
+	var ctors []string
+	for _, n := range gt.Types.Scope().Names() {
+		tn, ok := gt.Types.Scope().Lookup(n).(*types.TypeName)
+		if !ok || !tn.Exported() || tn.IsAlias() {
+			continue
+		}
+		if _, isIface := tn.Type().Underlying().(*types.Interface); isIface {
+			continue
+		}
+		if types.Implements(types.NewPointer(tn.Type()), typeIface) {
+			ctors = append(ctors, n)
+		}
+	}
+	// the type switch
+	var ts *ast.TypeSwitchStmt
+	ast.Inspect(fd.Body, func(n ast.Node) bool {
+		if x, ok := n.(*ast.TypeSwitchStmt); ok && ts == nil {
+			ts = x
+		}
+		return true
 	})
+	if ts == nil {
+		c.Fail("R01.1", "populateImportsHelper|no-type-switch", r.Pos(fd.Pos()), "no type switch over the type constructors")
+		return
+	}
+	cases := map[string]*ast.CaseClause{}
+	for _, s := range ts.Body.List {
+		cc := s.(*ast.CaseClause)
+		for _, e := range cc.List {
+			if t := info.TypeOf(e); t != nil {
+				if pt, ok := t.(*types.Pointer); ok {
+					if n, ok := pt.Elem().(*types.Named); ok && n.Obj().Pkg() != nil && n.Obj().Pkg().Path() == "go/types" {
+						cases[n.Obj().Name()] = cc
+					}
+				}
+			}
+		}
+	}
+	exempt := map[string]string{
+		"Tuple":     "never a variable's type; reached only through Signature, whose case walks Params/Results",
+		"TypeParam": "a type parameter names no package; its constraint is walked when the type-parameter list is rendered",
+	}
+	// recursion targets: the function itself, or helpers of the same receiver that reach it
+	helper := FuncDecl(tp, "MethodScope.populateImportNamedType")
+	callsIn := func(body ast.Node) []*ast.CallExpr {
+		var out []*ast.CallExpr
+		ast.Inspect(body, func(n ast.Node) bool {
+			if call, ok := n.(*ast.CallExpr); ok {
+				out = append(out, call)
+			}
+			return true
+		})
+		return out
+	}
+	recursiveArgs := func(body ast.Node) []string { // canonical strings of the type argument of each recursive call
+		defs := map[string]string{} // local := expr (single definition)
+		ast.Inspect(body, func(n ast.Node) bool {
+			if as, ok := n.(*ast.AssignStmt); ok && as.Tok == token.DEFINE && len(as.Lhs) == 1 && len(as.Rhs) == 1 {
+				if id, ok := as.Lhs[0].(*ast.Ident); ok {
+					if _, dup := defs[id.Name]; dup {
+						defs[id.Name] = id.Name
+					} else {
+						defs[id.Name] = types.ExprString(as.Rhs[0])
+					}
+				}
+			}
+			return true
+		})
+		var out []string
+		for _, call := range callsIn(body) {
+			if fn := calleeFunc(info, call); fn != nil && fn == self && len(call.Args) >= 2 {
+				s := types.ExprString(call.Args[1])
+				for name, def := range defs {
+					if _, isLoopVar := map[string]bool{"i": true, "j": true}[name]; isLoopVar || def == "0" {
+						continue
+					}
+					s = regexp.MustCompile(`\b`+regexp.QuoteMeta(name)+`\b`).ReplaceAllString(s, def)
+				}
+				out = append(out, s)
+			}
+		}
+		return out
+	}
+	addImportArgs := func(body ast.Node) []string {
+		var out []string
+		for _, call := range callsIn(body) {
+			if fn := calleeFunc(info, call); fn != nil && fn.Name() == "addImport" && len(call.Args) >= 2 {
+				out = append(out, types.ExprString(call.Args[1]))
+			}
+		}
+		return out
+	}
+	want := map[string][]string{
+		"Array":     {"t.Elem()"},
+		"Slice":     {"t.Elem()"},
+		"Pointer":   {"t.Elem()"},
+		"Chan":      {"t.Elem()"},
+		"Map":       {"t.Key()", "t.Elem()"},
+		"Signature": {"t.Params().At(i).Type()", "t.Results().At(i).Type()"},
+		"Struct":    {"t.Field(i).Type()"},
+		"Union":     {"t.Term(i).Type()"},
+		"Interface": {"t.ExplicitMethod(i).Type()", "t.EmbeddedType(i)"},
+	}
+	sort.Strings(ctors)
+	for _, ct := range ctors {
+		cc := cases[ct]
+		if cc == nil {
+			if why, ok := exempt[ct]; ok {
+				c.OK("R01.1", "case|"+ct+"|exempt", r.Pos(ts.Pos()), why)
+			} else {
+				c.Fail("R01.1", "case|"+ct+"|missing", r.Pos(ts.Pos()), "the import walk has no case for *types."+ct+": packages referenced only through such a type are never imported")
+			}
+			continue
+		}
+		c.OK("R01.1", "case|"+ct, r.Pos(cc.Pos()), "handled")
+		body := &ast.BlockStmt{List: cc.Body}
+		// canonicalise the case variable name to t and loop variables to i
+		canon := func(s string) string {
+			if ts.Assign != nil {
+				if as, ok := ts.Assign.(*ast.AssignStmt); ok {
+					if id, ok := as.Lhs[0].(*ast.Ident); ok && id.Name != "t" {
+						s = regexp.MustCompile(`\b`+regexp.QuoteMeta(id.Name)+`\b`).ReplaceAllString(s, "t")
+					}
+				}
+			}
+			s = regexp.MustCompile(`\((\w+)\)`).ReplaceAllStringFunc(s, func(m string) string {
+				if m == "()" {
+					return m
+				}
+				return "(i)"
+			})
+			return s
+		}
+		switch ct {
+		case "Named", "Alias":
+			// delegated: helper(ctx, t, imports) which adds t.Obj().Pkg() and recurses into TypeArgs().At(i)
+			okPkg, okArgs := false, false
+			bodies := []ast.Node{body}
+			for _, call := range callsIn(body) {
+				if fn := calleeFunc(info, call); fn != nil && helper != nil && fn == info.Defs[helper.Name] {
+					bodies = append(bodies, helper.Body)
+				}
+			}
+			for _, b := range bodies {
+				for _, call := range callsIn(b) {
+					if fn := calleeFunc(info, call); fn != nil && fn.Name() == "addImport" && len(call.Args) >= 2 {
+						// argument must be (derived from) t.Obj().Pkg()
+						arg := call.Args[1]
+						s := types.ExprString(arg)
+						if strings.HasSuffix(s, ".Obj().Pkg()") {
+							okPkg = true
+						} else if id, ok := arg.(*ast.Ident); ok {
+							// pkg := t.Obj().Pkg()
+							ast.Inspect(b, func(n ast.Node) bool {
+								if as, ok := n.(*ast.AssignStmt); ok && len(as.Lhs) == 1 && len(as.Rhs) == 1 {
+									if l, ok := as.Lhs[0].(*ast.Ident); ok && objOf(info, l) == info.Uses[id] && strings.HasSuffix(types.ExprString(as.Rhs[0]), ".Obj().Pkg()") {
+										okPkg = true
+									}
+								}
+								return true
+							})
+						}
+					}
+				}
+				for _, a := range recursiveArgs(b) {
+					if strings.HasSuffix(regexp.MustCompile(`\(\w+\)`).ReplaceAllString(a, "(i)"), ".At(i)") {
+						// targs.At(i) where targs := t.TypeArgs()
+						okArgs = true
+					}
+				}
+				if strings.Contains(nodeString(b), "TypeArgs()") == false {
+					// keep okArgs only if TypeArgs is consulted somewhere
+				}
+			}
+			usesTypeArgs := false
+			for _, b := range bodies {
+				if strings.Contains(nodeString(b), ".TypeArgs()") {
+					usesTypeArgs = true
+				}
+			}
+			c.Check(okPkg, "R01.1", "component|"+ct+"|Obj().Pkg()", r.Pos(cc.Pos()), "adds the import of the type's own package", "case *types."+ct+" does not add t.Obj().Pkg() to the imports")
+			c.Check(okArgs && usesTypeArgs, "R01.1", "component|"+ct+"|TypeArgs()", r.Pos(cc.Pos()), "recurses into every type argument", "case *types."+ct+" does not recurse into t.TypeArgs().At(i): packages named only in type arguments are not imported")
+		case "Basic":
+			ok := false
+			for _, a := range addImportArgs(body) {
+				if a == "types.Unsafe" {
+					ok = true
+				}
+			}
+			guard := strings.Contains(nodeString(body), "types.UnsafePointer")
+			c.Check(ok && guard, "R01.1", "component|Basic|unsafe", r.Pos(cc.Pos()), "unsafe.Pointer adds package unsafe", "case *types.Basic does not add package unsafe for types.UnsafePointer")
+		default:
+			got := map[string]bool{}
+			for _, a := range recursiveArgs(body) {
+				got[canon(a)] = true
+			}
+			for _, w := range want[ct] {
+				if got[w] {
+					c.OK("R01.1", "component|"+ct+"|"+w, r.Pos(cc.Pos()), "fed into the recursion")
+				} else {
+					var have []string
+					for g := range got {
+						have = append(have, g)
+					}
+					sort.Strings(have)
+					c.Fail("R01.1", "component|"+ct+"|"+w, r.Pos(cc.Pos()), fmt.Sprintf("case *types.%s does not feed %s into the recursion (recursive calls: %v): a package referenced only there is never imported", ct, w, have))
+				}
+			}
+			// loops must be bounded by the length of what they index
+			ast.Inspect(body, func(n ast.Node) bool {
+				fs, ok := n.(*ast.ForStmt)
+				if !ok {
+					return true
+				}
+				_, bound, ok := countingLoop(info, fs)
+				if !ok {
+					return true
+				}
+				b := canon(types.ExprString(bound))
+				for _, a := range recursiveArgs(fs.Body) {
+					a = canon(a)
+					pairs := map[string]string{"t.Params().At(i).Type()": "t.Params().Len()", "t.Results().At(i).Type()": "t.Results().Len()", "t.Field(i).Type()": "t.NumFields()",
+						"t.Term(i).Type()": "t.Len()", "t.ExplicitMethod(i).Type()": "t.NumExplicitMethods()", "t.EmbeddedType(i)": "t.NumEmbeddeds()"}
+					if wb, ok := pairs[a]; ok {
+						c.Check(wb == b, "R01.1", "bound|"+ct+"|"+a, r.Pos(fs.Pos()), "loop bound "+b, fmt.Sprintf("the loop feeding %s runs to %s, want %s", a, b, wb))
+					}
+				}
+				return true
+			})
+		}
+	}
+	// populateImports must start the walk on the variable's own type
+	if pi := FuncDecl(tp, "MethodScope.populateImports"); pi != nil {
+		ok := false
+		for _, a := range func() []string {
+			var out []string
+			ast.Inspect(pi.Body, func(n ast.Node) bool {
+				if call, ok := n.(*ast.CallExpr); ok {
+					if fn := calleeFunc(info, call); fn != nil && fn == self && len(call.Args) >= 2 {
+						out = append(out, types.ExprString(call.Args[1]))
+					}
+				}
+				return true
+			})
+			return out
+		}() {
+			if id := pi.Type.Params.List[1].Names[0]; a == id.Name {
+				ok = true
+			}
+		}
+		c.Check(ok, "R01.1", "populateImports|root", r.Pos(pi.Pos()), "walk starts at the given type", "populateImports does not start the walk at its type argument")
+	}
+}
+
+func nodeString(n ast.Node) string {
+	var b strings.Builder
+	ast.Inspect(n, func(x ast.Node) bool {
+		if e, ok := x.(ast.Expr); ok {
+			switch e.(type) {
+			case *ast.CallExpr, *ast.SelectorExpr:
+				b.WriteString(types.ExprString(e))
+				b.WriteString(";")
+			}
+		}
+		return true
+	})
+	return b.String()
+}
+
+// ---------------- R01.5: in-package decision ----------------
+
+func goR015(c *Ctx, r *Repo) {
+	ip := r.Pkg("internal")
+	info := ip.TypesInfo
+	fd := FuncDecl(ip, "NewTemplateGenerator")
+	if fd == nil {
+		c.Fail("R01.5", "NewTemplateGenerator|missing", "internal/template_generator.go", "NewTemplateGenerator not found")
+		return
+	}
+	c.Func(funcKey(ip, fd))
+	params := map[string]types.Object{}
+	for _, f := range fd.Type.Params.List {
+		for _, n := range f.Names {
+			params[n.Name] = info.Defs[n]
+		}
+	}
+	// find `inPackage = true` and its guarding condition
+	var cond ast.Expr
+	n := 0
+	ast.Inspect(fd.Body, func(x ast.Node) bool {
+		ifs, ok := x.(*ast.IfStmt)
+		if !ok {
+			return true
+		}
+		for _, s := range ifs.Body.List {
+			if as, ok := s.(*ast.AssignStmt); ok && len(as.Lhs) == 1 && len(as.Rhs) == 1 {
+				if l, ok := as.Lhs[0].(*ast.Ident); ok && l.Name == "inPackage" {
+					if rv, ok := as.Rhs[0].(*ast.Ident); ok && rv.Name == "true" {
+						cond = ifs.Cond
+						n++
+					}
+				}
+			}
+		}
+		return true
+	})
+	// any other assignment of true to inPackage outside that if is a violation
+	total := 0
+	ast.Inspect(fd.Body, func(x ast.Node) bool {
+		if as, ok := x.(*ast.AssignStmt); ok && len(as.Lhs) == 1 && len(as.Rhs) == 1 {
+			if l, ok := as.Lhs[0].(*ast.Ident); ok && l.Name == "inPackage" {
+				if rv, ok := as.Rhs[0].(*ast.Ident); !ok || rv.Name != "false" {
+					total++
+				}
+			}
+		}
+		return true
+	})
+	if n != 1 || total != 1 || cond == nil {
+		c.Fail("R01.5", "inPackage|assignment", r.Pos(fd.Pos()), fmt.Sprintf("inPackage is set true at %d guarded / %d total sites, want exactly one guarded site", n, total))
+		return
+	}
+	atoms := conjuncts(cond)
+	okName, okDir := false, false
+	var extra []string
+	for _, a := range atoms {
+		switch x := ast.Unparen(a).(type) {
+		case *ast.BinaryExpr:
+			if x.Op == token.EQL {
+				l, rr := ast.Unparen(x.X), ast.Unparen(x.Y)
+				if _, ok := l.(*ast.SelectorExpr); ok {
+					l, rr = rr, l
+				}
+				li, lok := l.(*ast.Ident)
+				rs, rok := rr.(*ast.SelectorExpr)
+				if lok && rok && info.Uses[li] == params["pkgName"] && rs.Sel.Name == "Name" {
+					if ri, ok := rs.X.(*ast.Ident); ok && info.Uses[ri] == params["srcPkg"] {
+						okName = true
+						continue
+					}
+				}
+			}
+		case *ast.CallExpr:
+			if sel, ok := x.Fun.(*ast.SelectorExpr); ok && sel.Sel.Name == "Equals" && len(x.Args) == 1 {
+				a1, a2 := types.ExprString(sel.X), types.ExprString(x.Args[0])
+				if (a1 == "srcPkgFSPath" && a2 == "outPkgFSPath") || (a2 == "srcPkgFSPath" && a1 == "outPkgFSPath") {
+					okDir = true
+					continue
+				}
+			}
+		}
+		extra = append(extra, types.ExprString(a))
+	}
+	if okName && okDir && len(extra) == 0 {
+		c.OK("R01.5", "inPackage|condition", r.Pos(cond.Pos()), types.ExprString(cond))
+	} else {
+		c.Fail("R01.5", "inPackage|condition", r.Pos(cond.Pos()), fmt.Sprintf("the in-package decision is %q; it must be exactly 'pkgName == srcPkg.Name && srcPkgFSPath.Equals(outPkgFSPath)' on the raw values: a same-directory package with a different name (e.g. foo_test) has to import the source package", types.ExprString(cond)))
+	}
+	// srcPkgFSPath originates from the source package's first Go file's directory
+	okSrc := false
+	ast.Inspect(fd.Body, func(x ast.Node) bool {
+		if as, ok := x.(*ast.AssignStmt); ok && len(as.Lhs) == 1 && len(as.Rhs) == 1 {
+			if l, ok := as.Lhs[0].(*ast.Ident); ok && l.Name == "srcPkgFSPath" {
+				s := types.ExprString(as.Rhs[0])
+				if strings.Contains(s, "srcPkg.GoFiles[0]") && strings.HasSuffix(s, ".Parent()") {
+					okSrc = true
+				}
+			}
+		}
+		return true
+	})
+	c.Check(okSrc, "R01.5", "inPackage|source-dir", r.Pos(fd.Pos()), "source directory = parent of srcPkg.GoFiles[0]", "srcPkgFSPath is not the directory of the source package's files")
+}
+
+func conjuncts(e ast.Expr) []ast.Expr {
+	e = ast.Unparen(e)
+	if b, ok := e.(*ast.BinaryExpr); ok && b.Op == token.LAND {
+		return append(conjuncts(b.X), conjuncts(b.Y)...)
+	}
+	return []ast.Expr{e}
+}
+
+// ---------------- R01.6: formatter dispatch ----------------
+
+func goR016(c *Ctx, r *Repo) {
+	ip := r.Pkg("internal")
+	info := ip.TypesInfo
+	ft, _ := ip.Types.Scope().Lookup("Formatter").(*types.TypeName)
+	if ft == nil {
+		c.Fail("R01.6", "Formatter|missing", "internal/template_generator.go", "type Formatter not found")
+		return
+	}
+	consts := map[string]string{} // const name -> value
+	for _, n := range ip.Types.Scope().Names() {
+		if k, ok := ip.Types.Scope().Lookup(n).(*types.Const); ok && types.Identical(k.Type(), ft.Type()) {
+			consts[n] = constant.StringVal(k.Val())
+		}
+	}
+	wantVals := map[string]bool{"goimports": true, "gofmt": true, "noop": true}
+	for n, v := range consts {
+		if !wantVals[v] {
+			c.Fail("R01.6", "const|"+n, "internal/template_generator.go", fmt.Sprintf("Formatter constant %s = %q is not a documented formatter name", n, v))
+		}
+		delete(wantVals, v)
+	}
+	for v := range wantVals {
+		c.Fail("R01.6", "const-missing|"+v, "internal/template_generator.go", "no Formatter constant with the documented value "+v)
+	}
+	fd := FuncDecl(ip, "TemplateGenerator.format")
+	if fd == nil {
+		c.Fail("R01.6", "format|missing", "internal/template_generator.go", "TemplateGenerator.format not found")
+		return
+	}
+	c.Func(funcKey(ip, fd))
+	srcObj := info.Defs[fd.Type.Params.List[0].Names[0]]
+	var sw *ast.SwitchStmt
+	ast.Inspect(fd.Body, func(n ast.Node) bool {
+		if s, ok := n.(*ast.SwitchStmt); ok && sw == nil {
+			sw = s
+		}
+		return true
+	})
+	if sw == nil || sw.Tag == nil || !strings.HasSuffix(types.ExprString(sw.Tag), ".formatter") {
+		c.Fail("R01.6", "format|switch", r.Pos(fd.Pos()), "format does not switch on the generator's formatter")
+		return
+	}
+	seen := map[string]bool{}
+	for _, s := range sw.Body.List {
+		cc := s.(*ast.CaseClause)
+		if cc.List == nil {
+			continue
+		}
+		for _, e := range cc.List {
+			id, ok := e.(*ast.Ident)
+			if !ok {
+				continue
+			}
+			k, ok := info.Uses[id].(*types.Const)
+			if !ok {
+				continue
+			}
+			val := constant.StringVal(k.Val())
+			seen[val] = true
+			// the arm: return <val>(src) / return src, nil
+			good := false
+			if len(cc.Body) == 1 {
+				if rs, ok := cc.Body[0].(*ast.ReturnStmt); ok {
+					switch {
+					case val == "noop" && len(rs.Results) == 2:
+						rid, ok := rs.Results[0].(*ast.Ident)
+						good = ok && info.Uses[rid] == srcObj && isNilIdent(info, rs.Results[1])
+					case len(rs.Results) == 1:
+						if call, ok := rs.Results[0].(*ast.CallExpr); ok && len(call.Args) == 1 {
+							fn := calleeFunc(info, call)
+							aid, aok := call.Args[0].(*ast.Ident)
+							good = fn != nil && fn.Name() == val && aok && info.Uses[aid] == srcObj
+						}
+					}
+				}
+			}
+			c.Check(good, "R01.6", "format|arm|"+val, r.Pos(cc.Pos()), "case "+id.Name+" formats with "+val, fmt.Sprintf("the %s arm of format does not return %s applied to the rendered bytes", id.Name, val))
+		}
+	}
+	for _, v := range consts {
+		if !seen[v] {
+			c.Fail("R01.6", "format|arm-missing|"+v, r.Pos(sw.Pos()), "format has no case for the formatter "+v)
+		}
+	}
+	// fall-through returns an error
+	okErr := false
+	if l := len(fd.Body.List); l > 0 {
+		if rs, ok := fd.Body.List[l-1].(*ast.ReturnStmt); ok && len(rs.Results) == 2 && isNilIdent(info, rs.Results[0]) && !isNilIdent(info, rs.Results[1]) {
+			okErr = true
+		}
+	}
+	c.Check(okErr, "R01.6", "format|unknown-error", r.Pos(fd.Pos()), "unknown formatter returns an error", "format does not end in an error return for an unknown formatter")
+	// the helpers call the library of their name on their argument
+	for name, want := range map[string]string{"goimports": "golang.org/x/tools/imports.Process", "gofmt": "go/format.Source"} {
+		h := FuncDecl(ip, name)
+		if h == nil {
+			c.Fail("R01.6", "helper|"+name+"|missing", "internal/template_generator.go", name+" not found")
+			continue
+		}
+		arg := info.Defs[h.Type.Params.List[0].Names[0]]
+		good := false
+		ast.Inspect(h.Body, func(n ast.Node) bool {
+			if call, ok := n.(*ast.CallExpr); ok && calleeName(info, call) == want {
+				for _, a := range call.Args {
+					if id, ok := a.(*ast.Ident); ok && info.Uses[id] == arg {
+						good = true
+					}
+				}
+			}
+			return true
+		})
+		c.Check(good, "R01.6", "helper|"+name, r.Pos(h.Pos()), name+" -> "+want, name+" does not pass its argument to "+want)
+	}
+}
+
+// ---------------- R01.7: module path ----------------
+
+func goR017(c *Ctx, r *Repo) {
+	ip := r.Pkg("internal")
+	info := ip.TypesInfo
+	fd := FuncDecl(ip, "findPkgPath")
+	if fd == nil {
+		c.Fail("R01.7", "findPkgPath|missing", "internal/template_generator.go", "findPkgPath not found")
+		return
+	}
+	c.Func(funcKey(ip, fd))
+	var modObj types.Object
+	var bytesArg ast.Expr
+	ast.Inspect(fd.Body, func(n ast.Node) bool {
+		if as, ok := n.(*ast.AssignStmt); ok && len(as.Rhs) == 1 && len(as.Lhs) == 1 {
+			if call, ok := as.Rhs[0].(*ast.CallExpr); ok && calleeName(info, call) == "golang.org/x/mod/modfile.ModulePath" && len(call.Args) == 1 {
+				modObj = objOf(info, as.Lhs[0].(*ast.Ident))
+				bytesArg = call.Args[0]
+			}
+		}
+		return true
+	})
+	if modObj == nil {
+		c.Fail("R01.7", "findPkgPath|module-path", r.Pos(fd.Pos()), "the module path is not obtained with modfile.ModulePath (a parser that is total on valid go.mod spellings)")
+		return
+	}
+	// the bytes come from ReadFile of the go.mod found
+	okBytes := false
+	if id, ok := bytesArg.(*ast.Ident); ok {
+		ast.Inspect(fd.Body, func(n ast.Node) bool {
+			if as, ok := n.(*ast.AssignStmt); ok && len(as.Rhs) == 1 && len(as.Lhs) == 2 {
+				if l, ok := as.Lhs[0].(*ast.Ident); ok && objOf(info, l) == info.Uses[id] && strings.HasSuffix(types.ExprString(as.Rhs[0]), ".ReadFile()") && strings.Contains(types.ExprString(as.Rhs[0]), "goMod") {
+					okBytes = true
+				}
+			}
+			return true
+		})
+	}
+	c.Check(okBytes, "R01.7", "findPkgPath|gomod-bytes", r.Pos(fd.Pos()), "ModulePath is applied to the bytes of the go.mod found", "modfile.ModulePath is not applied to the content of the go.mod that was found")
+	// empty result => error
+	okEmpty := false
+	ast.Inspect(fd.Body, func(n ast.Node) bool {
+		if ifs, ok := n.(*ast.IfStmt); ok {
+			if be, ok := ifs.Cond.(*ast.BinaryExpr); ok && be.Op == token.EQL {
+				if id, ok := be.X.(*ast.Ident); ok && info.Uses[id] == modObj {
+					if lit, ok := be.Y.(*ast.BasicLit); ok && lit.Value == `""` && returnsError(info, ifs.Body) {
+						okEmpty = true
+					}
+				}
+			}
+		}
+		return true
+	})
+	c.Check(okEmpty, "R01.7", "findPkgPath|no-module-line", r.Pos(fd.Pos()), "empty module path is an error", "a go.mod without module directive is not reported as an error")
+}
+
+// returnsError: the block ends in a return whose last result is not the nil identifier.
+func returnsError(info *types.Info, b *ast.BlockStmt) bool {
+	if len(b.List) == 0 {
+		return false
+	}
+	rs, ok := b.List[len(b.List)-1].(*ast.ReturnStmt)
+	if !ok || len(rs.Results) == 0 {
+		return false
+	}
+	return !isNilIdent(info, rs.Results[len(rs.Results)-1])
 }
